@@ -619,4 +619,84 @@ theorem exec_step {L : OpId} {d : Doc} (I : DP.DInv L 0 d) (hk : KeysND d) {π :
         subst hst2
         exact ⟨b', hp, hmeta, he, hview, I2, hk2 hk hck⟩
 
+/-- one patch operation that the plain tree accepts, on the document -/
+theorem op_step {L : OpId} {d : Doc} (I : DP.DInv L 0 d) (hk : KeysND d) {op : PatchOp} {t' : JVal}
+    (happ : applyAt op op.path d.view.canon = some t') (hgood : Carr GoodV op) :
+    ∃ c b post d' bd ret' b', d.patchCall op = .ok (some c) ∧ c.prepare (.doc d) = .op b post ∧ b.isMeta = false ∧
+      execLocal (.doc d) L.next.ts b = .ok (.doc d', bd, ret') ∧ d'.view.canon = t' ∧ DP.DInv L b' d' ∧ KeysND d' := by
+  rcases List.eq_nil_or_concat op.path with hnil | ⟨p, k, hpath⟩
+  · rw [hnil] at happ
+    simp [applyAt] at happ
+  · rw [List.concat_eq_append] at hpath
+    rw [hpath, PD.applyAt_append] at happ
+    cases hg : PD.getAt p d.view.canon with
+    | none => simp [hg] at happ
+    | some c0 =>
+      simp only [hg, Option.bind_some] at happ
+      cases ha : applyAt op [k] c0 with
+      | none => simp [ha] at happ
+      | some c' =>
+        simp only [ha, Option.bind_some] at happ
+        obtain ⟨π, hd, hloc, hres, hview, hset⟩ := resolve_root I hk p c0 hg
+        rw [hset c'] at happ
+        obtain ⟨hl, _⟩ := DP.loc_of I hk hloc
+        have hsub := hl.sub
+        rw [hview] at hsub
+        obtain ⟨c, hcall, ⟨ret, hstep⟩, hh, hck, hm⟩ := step_of_apply hd hsub ha happ hgood
+        have hpc := patchCall_eq I hk hpath hres (alive_located I hloc) hview hcall hgood
+        obtain ⟨b, post, d', bd, ret', b', q1, q2, q3, q4, q5, q6⟩ := exec_step I hk hloc hh hck hm hstep
+        exact ⟨c, b, post, d', bd, ret', b', hpc, q1, q2, q3, q4, q5, q6⟩
+
+/-! ## 5. `Replica.patch` -/
+
+theorem patch_nil {r : Replica} {d : Doc} (hs : r.state = .doc d) : r.patch [] = (r, .ok ()) :=
+  Replica.patch.eq_1 r d hs
+
+/-- ONE operation: the public call directly -/
+theorem patch_one {r : Replica} {d : Doc} (hs : r.state = .doc d) (I : DP.DInv r.opId 0 d) (hk : KeysND d)
+    {op : PatchOp} {t' : JVal} (happ : applyAt op op.path d.view.canon = some t') (hgood : Carr GoodV op) :
+    ∃ d' bd b', r.patch [op] = ({ r with opId := r.opId.next, state := .doc d', rbOps := r.rbOps ++ [⟨r.opId.next, bd⟩],
+                                        buffer := r.buffer ++ [Op.wire ⟨r.opId.next, bd⟩] }, .ok ()) ∧
+      d'.view.canon = t' ∧ DP.DInv r.opId b' d' ∧ KeysND d' := by
+  obtain ⟨c, b, post, d', bd, ret', b', hpc, hprep, hmeta, hexec, hview, I', hk'⟩ := op_step I hk happ hgood
+  rw [← hs] at hprep hexec
+  have hcall := DP.call_of_ok hprep hmeta hexec
+  refine ⟨d', bd, b', ?_, hview, I', hk'⟩
+  simp only [Replica.patch, hs, hpc, hcall]
+
+/-- SEVERAL operations: the body of the transaction -/
+theorem body_run : ∀ (ops : List PatchOp) (r : Replica) (acc : List Op) (d : Doc) (tf : JVal),
+    r.state = .doc d → DP.DInv r.opId 0 d → KeysND d → applyPatch ops d.view.canon = some tf →
+    (∀ op ∈ ops, Carr GoodV op) →
+    ∃ r1 acc' d1, Replica.patch.body r acc ops = (r1, acc ++ acc', none) ∧ acc'.length = ops.length ∧
+      r1.state = .doc d1 ∧ d1.view.canon = tf ∧ DP.DInv r1.opId 0 d1 ∧ KeysND d1 ∧ r1.buffer = r.buffer ∧
+      r1.rbOps = r.rbOps := by
+  intro ops
+  induction ops with
+  | nil =>
+    intro r acc d tf hs I hk happ _
+    simp only [applyPatch, Option.some.injEq] at happ
+    exact ⟨r, [], d, by simp [Replica.patch.body], rfl, hs, happ, I, hk, rfl, rfl⟩
+  | cons op rest ih =>
+    intro r acc d tf hs I hk happ hgood
+    simp only [applyPatch] at happ
+    cases h1 : applyAt op op.path d.view.canon with
+    | none => simp [h1] at happ
+    | some t1 =>
+      simp only [h1, Option.bind_some] at happ
+      obtain ⟨c, b, post, d', bd, ret', b', hpc, hprep, hmeta, hexec, hview, I', hk'⟩ :=
+        op_step I hk h1 (hgood op (by simp))
+      have hex : r.execLocalBase b =
+          ({ r with opId := r.opId.next, state := .doc d' }, .ok (⟨r.opId.next, bd⟩, ret')) := by
+        simp only [Replica.execLocalBase, hmeta, Bool.false_eq_true, if_false, hs, hexec]
+      rw [← hview] at happ
+      obtain ⟨r1, acc', d1, q1, q2, q3, q4, q5, q6, q7, q8⟩ :=
+        ih { r with opId := r.opId.next, state := .doc d' } (acc ++ [⟨r.opId.next, bd⟩]) d' tf rfl I'.finish hk' happ
+          (fun o ho => hgood o (by simp [ho]))
+      refine ⟨r1, ⟨r.opId.next, bd⟩ :: acc', d1, ?_, by simp [q2], q3, q4, q5, q6, q7, q8⟩
+      rw [Replica.patch.body.eq_2]
+      simp only [hs, hpc, hprep, hex]
+      rw [q1]
+      simp
+
 end Orda.DPatch
